@@ -62,7 +62,9 @@ macro_rules! __array_from_fn_inner {
 
         let __konst_am_arr $(: $crate::__unparenthesize_ty!($($type)*))? =
             $crate::utils::__parse_closure_1!{
-                ($crate::__array_map) (__konst_am_input, |__konst_am_i| __konst_am_i,) (array_from_fn),
+                // passing a copy of the index, so that a `ref mut` pattern in the closure
+                // can't borrow (and advance) the loop counter
+                ($crate::__array_map) (__konst_am_input, |__konst_am_i| { __konst_am_i },) (array_from_fn),
                 $($closure_unparsed)*
             };
 
